@@ -32,7 +32,23 @@ func patchOverlay(repo, patchFile string) (map[string][]byte, error) {
 		return nil, err
 	}
 	defer os.RemoveAll(tmp)
+	newFile := map[string]bool{}
+	{
+		lines := strings.Split(string(diff), "\n")
+		for i, l := range lines {
+			if strings.HasPrefix(l, "+++ b/") && i > 0 && strings.HasPrefix(lines[i-1], "--- /dev/null") {
+				newFile[strings.TrimSpace(strings.TrimPrefix(l, "+++ b/"))] = true
+			}
+		}
+	}
 	for _, f := range files {
+		if newFile[f] {
+			if _, err := os.Stat(filepath.Join(repo, f)); err == nil {
+				return nil, fmt.Errorf("patch creates %s which the tree already has", f)
+			}
+			os.MkdirAll(filepath.Dir(filepath.Join(tmp, f)), 0o755)
+			continue // patch creates it
+		}
 		src, err := os.ReadFile(filepath.Join(repo, f))
 		if err != nil {
 			return nil, fmt.Errorf("patch names %s which the tree does not have", f)
